@@ -89,6 +89,12 @@ class Ctx:
             raise ToolError('build of %s failed:\n%s' % (what, p.stdout[-6000:]))
         self.log('built %s in %.1fs' % (what, time.time() - t))
 
+    def build_agent(self):
+        out = os.path.join(self.scratch, 'whawty-auth')
+        if not os.path.exists(out):
+            self.run_build(['go', 'build', '-o', out, './cmd/whawty-auth'], 'agent binary')
+        return out
+
     def build_bin(self, name, srcdir, extra_mapping=None, race=False):
         """Mount /verif/<srcdir>/*.go as package main at internal/verifh/<name> and build."""
         m = self.base_mapping()
@@ -269,8 +275,9 @@ class Part:
 class GoBin(Part):
     """A `package main` harness mounted under internal/verifh/<name>."""
 
-    def __init__(self, name, srcdir, args=None, thorough_only=False, env=None, race=False):
+    def __init__(self, name, srcdir, args=None, thorough_only=False, env=None, race=False, agent=False):
         super().__init__(name, thorough_only)
+        self.agent = agent
         self.srcdir = srcdir
         self.args = args or []
         self.env = env or {}
@@ -278,10 +285,14 @@ class GoBin(Part):
 
     def warm(self, ctx):
         ctx.build_bin(self.name, self.srcdir, race=self.race)
+        if self.agent:
+            ctx.build_agent()
 
     def run(self, ctx, replay):
         b = ctx.build_bin(self.name, self.srcdir, race=self.race)
         extra = dict(self.env)
+        if self.agent:
+            extra['VERIF_AGENT_BIN'] = ctx.build_agent()
         if replay:
             extra['VERIF_REPLAY'] = os.path.abspath(replay)
         ctx.run_part(self.name, [b] + self.args, extra)
